@@ -136,7 +136,7 @@ func (w *chunkWriter) Write(p []byte) (int, error) {
 func (w *chunkWriter) Close() error { return nil }
 
 func runReader(t *trzsz.VerifEscapeTable, cs [][]byte, sizes []int, dflt int) string {
-	r := trzsz.VerifNewEscapeReader(t, &chunkReader{cs})
+	r := trzsz.VerifNewEscapeReader(t, &chunkReader{append([][]byte(nil), cs...)}) // the reader advances its own copy of the list
 	var outs [][]byte
 	for i := 0; ; i++ {
 		size := dflt
